@@ -55,17 +55,17 @@ type loopInfo struct {
 }
 
 type session struct {
-	cs     caseSpec
-	e      *fx.Engine
-	mu     sync.Mutex
-	loops  map[gnet.EventLoop]*loopInfo
-	byGoid map[uint64]gnet.EventLoop
-	fails  []string
-	conns  []*cstate
-	target net.Listener
-	loopsActive map[gnet.EventLoop]bool
+	cs              caseSpec
+	e               *fx.Engine
+	mu              sync.Mutex
+	loops           map[gnet.EventLoop]*loopInfo
+	byGoid          map[uint64]gnet.EventLoop
+	fails           []string
+	conns           []*cstate
+	target          net.Listener
+	loopsActive     map[gnet.EventLoop]bool
 	externalsActive int32
-	overlapSeen bool
+	overlapSeen     bool
 }
 
 func (s *session) failf(key, f string, a ...any) {
@@ -245,7 +245,7 @@ func (s *session) do(o wop) {
 
 func runCase(cs caseSpec) (fails []string, infra string, nt bool) {
 	s := &session{cs: cs, loops: map[gnet.EventLoop]*loopInfo{}, byGoid: map[uint64]gnet.EventLoop{}, loopsActive: map[gnet.EventLoop]bool{}}
-	tl, err := net.Listen("tcp", "127.0.0.1:0")
+	tl, err := net.Listen("tcp4", fx.Host("tcp4")+":0") // this process's own loop-back address: TIME_WAIT remnants do not pile up on one address
 	if err != nil {
 		return nil, err.Error(), false
 	}
